@@ -293,6 +293,8 @@ pub fn c12_directed() -> Vec<(&'static str, String)> {
         ("procedure-with-locals-and-blocks", "functie p(a) { stel b = a + 1; { stel c = b + 1 }; stel d = b }; [p(1), 7, p(2)]".into()),
         ("result-discarded", "functie f() { [1, 2, 3] } f(); f(); 5".into()),
         ("call-in-condition", "functie waar() { ja } functie tel(n) { n + 1 } als waar() { tel(1) } anders { tel(2) }".into()),
+        ("call-above-64k-of-code", format!("stel x = 0; functie tel() {{ x = x + 1; x }}; {} [tel(), tel(), x]", "x = x + 1; ".repeat(9000))),
+        ("calls-throughout-100k-of-code", format!("functie dubbel(v) {{ stel w = v * 2; w }}; stel som = 0; {} [som, dubbel(som)]", (0..6000).map(|k| format!("som = som + dubbel({}); ", k % 7)).collect::<String>())),
         ("call-in-loop-condition", "stel n = 0; functie minder(a) { a < 3 } zolang minder(n) { n += 1 }; n".into()),
     ]
 }
